@@ -6,12 +6,11 @@ Import ListNotations.
 
 (* For every number of trainers (incl. none), every pair of thresholds per trainer (or no
    condition), every queue size and buffer capacity, every interleaving of sample arrivals
-   (any timestamps) with ticks, and both boundary policies for a timestamp equal to the
-   marker: the k-th tick offers trainer (k mod n) whatever the others did; a conditioned
+   (any timestamps) with ticks (a timestamp equal to the marker does not count as new): the k-th tick offers trainer (k mod n) whatever the others did; a conditioned
    trainer runs iff len(buffer) >= min size and the number of delivered samples newer than
    its previous positive decision, within the last queue-size deliveries, >= min new; a
    run is exactly setup, train, sync, teardown; the marker moves only on a run. *)
-Theorem C13_oracle_holds_on_model : forall i : input, prop_ok (i, model_outs i) = true.
+Theorem C13_oracle_holds_on_model : forall i : input, i_incl i = false -> prop_ok (i, model_outs i) = true.
 Proof. exact model_ok. Qed.
 Print Assumptions C13_oracle_holds_on_model.
 
